@@ -43,8 +43,12 @@ def replay(case):
     for k in ('cmd', 'file', 'default', 'force', 'effective', 'pre'):
         if isinstance(case[k], list):      # the empty function is printed as an empty JSON array
             case[k] = {}
-    file_opts = ' '.join('%s=%s' % (k, v) for k, v in sorted(case['file'].items()))
-    blt = BLT % ('[droop %s]' % file_opts if file_opts else '')
+    fitems = ['%s=%s' % (k, v) for k, v in sorted(case['file'].items())]
+    if len(fitems) >= 2 and (len(case['rule']) + len(fitems) + len(case['cmd'])) % 2 == 0:
+        # the file layer may be spread over several [droop ...] lines: they accumulate
+        blt = BLT % ('[droop %s]\n[droop %s]' % (fitems[0], ' '.join(fitems[1:])))
+    else:
+        blt = BLT % ('[droop %s]' % ' '.join(fitems) if fitems else '')
     cmd = {k: typed(v) for k, v in case['cmd'].items()}       # the rule name is part of the layer(s) the case puts it in
     diffs = []
     try:
